@@ -15,15 +15,15 @@ RULE = ("(i) Exhaustive coefficient extraction: for each n, every player i and e
         "decides the linear map completely for that n. (ii) Hypothesis: real-valued games (int/dyadic/float, v(empty)=0) "
         "held in a fully known IncompleteCooperativeGame and, for graph-shaped inputs, a GraphCooperativeGame: value == exact "
         "rational sum; efficiency; relabelling by a drawn permutation permutes the values; constructed null player gets 0; "
-        "linearity on drawn pairs/scalars; single-player and all-players entry points agree. A few games with n = 11..13 (beyond any plausible internal batch size) for value / efficiency / entry points. Non-trivial: game not symmetric "
+        "linearity on drawn pairs/scalars; single-player and all-players entry points agree. A few games with n = 11..13 (beyond any plausible internal batch size) for value / efficiency / entry points; single-player evaluations at n = 14..18 and n = 21..23 (beyond 16-bit ids and beyond 64-bit factorials) on a noise game and an increasing game against a vectorised closed form, tolerance 2*2^n*eps*max|marginal|. Non-trivial: game not symmetric "
         "(two coalitions of equal size with different values); distinct = hash of the game.")
 LEVEL_TEXT = ("For each listed n the linear map is decided by enumerating its basis against the orderings definition (exhaustive "
               "for that n); generated real games then test that the function really is that linear map (efficiency, symmetry, "
               "null player, linearity). The statement's per-n symbolic proof is replaced by exhaustive basis extraction.")
 LEVEL_NOTE = ("Trusted: itertools.permutations-based definition in vp/oracles.py (n<=7), closed form beyond, Fraction arithmetic. "
-              "Float tolerance 32*2^n*eps*scale. Basis n<=6 quick, n<=9 thorough; random games to n=10 with all relations, n=11..13 for value / efficiency / entry points; repeated calls on one object.")
+              "Float tolerance 32*2^n*eps*scale. Basis n<=6 quick, n<=9 thorough; random games to n=10 with all relations, n=11..13 for value / efficiency / entry points; n=14..18, 22 (thorough 21..23) single-player closed form; repeated calls on one object.")
 TECHNIQUE = "property-based testing: exhaustive basis enumeration vs n!-orderings oracle + Hypothesis metamorphic relations (permutation, linearity, null player)"
-ASSUMPTIONS = ["float64 evaluation: equality within 32*2^n*eps*max|v|", "n<=10 for all relations; n = 11..13 for value / efficiency / entry points"]
+ASSUMPTIONS = ["float64 evaluation: equality within 32*2^n*eps*max|v|", "n<=10 for all relations; n = 11..13 for value / efficiency / entry points; n = 14..23 single-player value only"]
 
 
 def _lib_shapley(n, v, single: bool):
@@ -261,13 +261,16 @@ def plan(tier: str) -> list[dict]:
                 + [{"mode": "games", "max_n": 7, "examples": 350, "cost": 3} for _ in range(4)]
                 + [{"mode": "games", "max_n": 9, "min_n": 8, "examples": 12, "cost": 3},
                    {"mode": "games", "max_n": 12, "min_n": 11, "examples": 3, "cost": 4},
-                   {"mode": "large", "ns": [17], "players": 2, "examples": 2, "cost": 4}])
+                   {"mode": "large", "ns": [17], "players": 2, "examples": 2, "cost": 4},
+                   # beyond 21 players (n-1)! no longer fits a 64-bit integer: one evaluation (~10 s, 0.8 GB)
+                   {"mode": "large", "ns": [22], "players": 1, "examples": 1, "cost": 5}])
     return ([{"mode": "basis", "ns": [1, 2, 3, 4, 5, 6], "cost": 2}, {"mode": "basis", "ns": [7], "cost": 5},
              {"mode": "basis", "ns": [8], "cost": 12}, {"mode": "basis", "ns": [9], "cost": 40}]
             + [{"mode": "games", "max_n": 7, "examples": 6000, "cost": 10} for _ in range(8)]
             + [{"mode": "games", "max_n": 10, "min_n": 8, "examples": 80, "cost": 12} for _ in range(4)]
             + [{"mode": "games", "max_n": 13, "min_n": 11, "examples": 12, "cost": 14} for _ in range(3)]
-            + [{"mode": "large", "ns": [14, 15, 16, 17, 18], "players": 4, "examples": 10, "cost": 14}])
+            + [{"mode": "large", "ns": [14, 15, 16, 17, 18], "players": 4, "examples": 10, "cost": 14},
+               {"mode": "large", "ns": [21, 22, 23], "players": 1, "examples": 3, "cost": 14}])
 
 
 def run_shard(spec: dict, ctx: Ctx) -> None:
